@@ -39,6 +39,7 @@ WithFiller(i) == LET q == ApplySets([MkParam(MC_UserParams[i].p.n, MC_UserParams
                  IN Append(BaseObj.grp, MkGroup(gUSR, <<q>>))
 Residues == {SectionSize(WithFiller(i)) % 512 : i \in 1..Len(MC_UserParams)}
 ASSUME KMax = 255 => Residues = 0..511
+MC_AliasGroups == {}
 Dump == ~Sampled(Len(hist)) \/ PrintT(ToJson([path |-> hist, op |-> lastOp', out |-> lastOut', post |-> Abs(obj'),
                        bytes |-> IF lastOp'.op = "Reload" /\ lastOut' # "range_error" THEN WriterModel(obj) ELSE <<>>]))
 =========================================================================
